@@ -284,7 +284,14 @@ def _sweep(ck, p, byk):
     loops = cfg.natural_loops()
     cand = [(h, body) for h, body in loops.items() if any(bi in body for bi, _ in nexts)]
     if len(cand) != 1 or len(nexts) != 1:
-        ck.refuted(rule, "anchor-missing:sweep-loop", f.span, "expected one loop over the sorted vector after the sort (loops: %d, next() calls: %d)" % (len(cand), len(nexts)))
+        # the function is there and sorts; its sweep is written in a form this rule does not follow (an adaptor chain
+        # with the running end kept in a closure, ..): not decided - unlike a missing function, this is no evidence
+        # that the property's mechanism is gone
+        adaptors = sorted({method(t) for _, t in f.calls() if method(t) in ("filter_map", "filter", "scan", "fold", "retain", "for_each", "map", "dedup_by", "partition")})
+        if adaptors and not cand:
+            ck.undecided(rule, "remove_overlaps:sweep-form", f.span, "after the sort the vector is swept by an adaptor chain (%s) rather than a loop: the running-end argument of this rule does not follow it" % ", ".join(adaptors))
+        else:
+            ck.refuted(rule, "anchor-missing:sweep-loop", f.span, "expected one loop over the sorted vector after the sort (loops: %d, next() calls: %d)" % (len(cand), len(nexts)))
         return
     head, body = cand[0]
     nb, nt = nexts[0]
